@@ -186,7 +186,7 @@ CHECKS["C11"] = {
     "pkg": "./props/c11", "engine": "rapid+isolation-child (+ native go fuzz in thorough)",
     "level": "exploration",
     "technique": "fuzzing: structure-aware generated corruption (rapid) of valid and signed artefacts and upload bodies at every parser entry point inside an isolation child, a replayed crasher corpus, and coverage-guided native go fuzzing in the thorough tier; resource oracle on allocation and CPU",
-    "level_text": "Inputs are 1-4 structure-aware corruptions (offset/length-looking fields set to boundary values, bit flips, truncation, duplication / deletion / zeroing / insertion of chunks, cross-format splices) of 60+ valid and relic-signed artefacts of all 19 signer modules (fixtures and signed siblings) or of the upload stream the client transform produces, presented to verify (integrity + chain), the is-signed probe, the client transform, server-side Sign, transform-then-Sign, type detection and the certificate loader, with the module detected or forced. Each case runs in an isolation child under a 6 GiB address-space cap: the child must stay alive (no panic in any goroutine, no runtime abort), report no recovered panic, allocate <= 96 MiB + 512 x input bytes in total and burn <= 15 s + 20 ms/KiB CPU, and not block. Saved crashers (testdata/crashers) are replayed first. The thorough tier adds a coverage-guided go fuzz campaign over (entry, module, bytes) seeded with all bases and crashers.",
+    "level_text": "Inputs are 1-4 structure-aware corruptions (offset/length-looking fields set to boundary values, bit flips, truncation, duplication / deletion / zeroing / insertion of chunks, cross-format splices) of 60+ valid and relic-signed artefacts of all 19 signer modules (fixtures and signed siblings) or of the upload stream the client transform produces, presented to verify (integrity + chain), the is-signed probe, the client transform, server-side Sign, transform-then-Sign, type detection and the certificate loader, with the module detected or forced. Each case runs in an isolation child under a 2 GiB address-space cap: the child must stay alive (no panic in any goroutine, no runtime abort), report no recovered panic, allocate <= 96 MiB + 512 x input bytes in total and burn <= 15 s + 20 ms/KiB CPU, and not block. Saved crashers (testdata/crashers) are replayed first. The thorough tier adds a coverage-guided go fuzz campaign over (entry, module, bytes) seeded with all bases and crashers.",
     "level_note": "Resource proportionality is judged against fixed generous multiples, not asymptotically. Wall-clock time is never a verdict. Failures inside the third-party RPM reader are listed findings keyed by site. The HTTP layer in front of Sign is exercised by C14/C04, not here. Native fuzzing cannot be seeded: its saved crasher is the reproducible unit.",
     "run": "^TestC11",
     "quick": {"checks": 25000, "timeout": 1500, "shards": 8},
